@@ -322,6 +322,48 @@ def or_lists(ctx, wf, model_ok):
                                'running %r in %s units: %s, waits asked of the clock %r (match digest %s, expected %s), events %r'
                                % (src, mode, st, [w[:40] for w in waits], got, spec[idx], evs[:4]), {'script': src, 'mode': mode})
     ctx.extra['or_lists_run_through_machine'] = n_runs
+    # two `time at` statements in one script: each wait is for the times ITS list denotes, whatever the statement before
+    # it listed (the same first pattern, a macro used twice, the statements in a loop)
+    def table_digest(ev):
+        table = set()
+        for alt in ev[2:].split('+')[:-1]:
+            hs, ms = alt.split(':')
+            table |= {(int(h), int(m)) for h in hs.split('.')[:-1] for m in ms.split('.')[:-1]}
+        return digest_of(lambda h, m: (h, m) in table)
+    single = {}
+    def digest_for(l):
+        k = tuple(l)
+        if k not in single:
+            single[k] = eval_strings(ctx, 'c11seq', 'From Bardolph Require Import Run.C11Spec.', 'spec_or_cases', [list(l)], 150,
+                                     render=lambda x: coq_list([coq_str(t) for t in x]))[0]
+        return single[k]
+    n_seq = 0
+    for a, b, c in [('10:00', '11:30', '12:15'), ('*:00', '7:45', '8:*'), ('1*:*5', '2*:0*', '9:30'), ('8:00', '9:30', '23:59')]:
+        for first, second in [([a, b], [a]), ([a, b], [a, c]), ([a], [a, b]), ([a, b, c], [b]), ([a, b], [b, a])]:
+            for form in ('plain', 'macro', 'loop'):
+                if form == 'plain':
+                    src = 'time at %s\non all\ntime at %s\noff all\n' % (' or '.join(first), ' or '.join(second))
+                    want = [digest_for(first), digest_for(second)]
+                elif form == 'macro':
+                    src = 'define wake %s\ntime at %s\non all\ntime at %s\noff all\n' % (first[0], ' or '.join(['wake'] + first[1:]),
+                                                                                     ' or '.join(['wake' if t == first[0] else t for t in second]))
+                    want = [digest_for(first), digest_for(second)]
+                else:
+                    src = 'repeat 2 begin\ntime at %s\non all\ntime at %s\noff all\nend\n' % (' or '.join(first), ' or '.join(second))
+                    want = [digest_for(first), digest_for(second)] * 2
+                p, e = lang.compile_script(src)
+                if p is None:
+                    ctx.counterexample('C11/or-list-rejected', 'accepted patterns joined by `or` are rejected: %r' % src, {'script': src})
+                    continue
+                st, evs = lang.run_program_impl(p, lang.SMALL_WORLD, max_steps=800)
+                got = [table_digest(x) for x in evs if x.startswith('U|')]
+                n_seq += 1
+                ctx.count()
+                ctx.nontriv(('seq', src))
+                if st != 'FIN' or got != want:
+                    ctx.counterexample('C11/later-time-at-keeps-earlier-alternatives',
+                                       'running %r: %s; the waits asked of the clock have match digests %r, the lists denote %r' % (src, st, got, want), {'script': src})
+    ctx.extra['time_at_sequences'] = n_seq
 
 
 def compile_accepts(ctx, texts):
@@ -435,6 +477,68 @@ def clock_wait(ctx, wf):
                                'waiting for %r from %02d:%02d returns at %s, first denoted minute is %s' % (l, start // 60, start % 60, got, want),
                                {'patterns': l, 'start': start, 'got': got, 'want': want})
     ctx.extra['clock_waits'] = len(cases)
+    # the wall clock jumps while the wait is pending (suspend / resume, the clock is set): every poll looks at the time
+    # of day afresh -- also when the minute it shows is the one the previous poll showed, some hours earlier
+    import types
+    from bardolph.lib import clock as clock_mod
+    n_jump = 0
+    for i in range(120 if ctx.thorough() else 30):
+        h1, k, m = rng.randrange(0, 20), rng.randint(1, 3), rng.randrange(60)
+        directed = i % 2 == 0
+        pats = ['%d:%02d' % (h1 + k, m)] if directed else [rng.choice(wf) for _ in range(rng.choice([1, 2]))]
+        if not all(impl_case(t).startswith('A') and impl_case(t) != 'A0,0,0' for t in pats):
+            continue
+        p = TimePattern.from_string(pats[0]).copy() if hasattr(TimePattern.from_string(pats[0]), 'copy') else TimePattern.from_string(pats[0])
+        for t in pats[1:]:
+            p.union(TimePattern.from_string(t))
+        tick = rng.choice([5, 17, 23])
+        jump_at = rng.randint(1, 4)
+        state = {'secs': h1 * 3600 + m * 60 + rng.randrange(0, 20), 'waits': 0, 'polls': []}
+        clock = Clock()
+
+        class JumpDatetime:
+            @staticmethod
+            def now():
+                t = state['secs']
+                state['polls'].append(t)
+                return types.SimpleNamespace(hour=(t // 3600) % 24, minute=(t // 60) % 60, second=t % 60)
+        saved = (clock_mod.datetime, Clock.wait)
+        try:
+            clock_mod.datetime = JumpDatetime
+
+            def jump_wait(self):
+                state['waits'] += 1
+                state['secs'] += (3600 * k) if state['waits'] == jump_at else tick
+                if state['waits'] > 40000:
+                    raise RuntimeError('no match within two days')
+                return True
+            Clock.wait = jump_wait
+            try:
+                clock.wait_until(p)
+                got = state['secs']
+            except RuntimeError:
+                got = None
+        finally:
+            clock_mod.datetime, Clock.wait = saved
+        # expected: the first time of day the clock showed at a poll, or would have shown at a later one, that the list denotes
+        t, w = h1 * 3600 + m * 60 + (state['polls'][0] - (h1 * 3600 + m * 60)) if state['polls'] else 0, 0
+        want = None
+        for _ in range(40001):
+            if p.match((t // 3600) % 24, (t // 60) % 60):
+                want = t
+                break
+            w += 1
+            t += (3600 * k) if w == jump_at else tick
+        n_jump += 1
+        ctx.count()
+        if directed:
+            ctx.nontriv(('jump', tuple(pats), h1, k, m, jump_at))
+        if got != want:
+            show = lambda x: None if x is None else '%02d:%02d:%02d' % ((x // 3600) % 24, (x // 60) % 60, x % 60)
+            ctx.counterexample('C11/wait-misses-match-after-clock-jump',
+                               'waiting for %r from %02d:%02d with the clock jumping %d h at poll %d returns at %s; the first poll that shows a denoted time is at %s'
+                               % (pats, h1, m, k, jump_at, show(got), show(want)), {'patterns': pats, 'start': [h1, m], 'jump_hours': k, 'jump_at_wait': jump_at, 'tick': tick})
+    ctx.extra['clock_waits_with_jumps'] = n_jump
 
 
 def replay(ctx, payload):
